@@ -3,5 +3,6 @@ PROP_MODULES = {
     "C02": ["contracts.c02_select"],
     "C03": ["contracts.c03_neurons"],
     "C07": ["contracts.c07_traces"],
+    "C10": ["contracts.c10_updater"],
     "C20": ["contracts.c20_numeric"],
 }
